@@ -260,6 +260,41 @@ theorem C10_source_get_endianness_fields (h : Nat) :
     runItem [("chunk_header", .int h)] Gen.src_get_endianness_fields "chunk_type" = .ok (.int (chunkType h)) :=
   src_get_endianness_fields_eq h
 
+open MiniPy in
+/-- `stream2bytearray`, one whole turn of `while offset < len(data)` with `offset` at a chunk header
+    `b0 b1 b2 b3` (any bytes before it, any bytes after it): exactly as one step of `chunkBodies` —
+    `EOFError` when fewer than `chunkSize` bytes follow the header; otherwise the recorded position is
+    `(offset + 4, chunkSize)`, `offset` advances by `4 + chunkSize`, and the loop breaks iff `last`.
+    (`last, _, _ = decode_chunktype(chunk_type)` is the one statement set aside: `last` is an input here, its value
+    is tied by `C10_source_decode_chunktype` and `chunk_type` by `C10_source_stream2bytearray_fields`.) -/
+theorem C10_source_stream2bytearray_turn (pre rest : Bytes) (b0 b1 b2 b3 : UInt8) (last : Bool) :
+    (rest.length < chunkSize (be32 b0 b1 b2 b3) →
+      exec (turnEnv (pre ++ b0 :: b1 :: b2 :: b3 :: rest) pre.length last) Gen.src_stream2bytearray_turn
+        = .error (.raised "EOFError")) ∧
+    (¬ rest.length < chunkSize (be32 b0 b1 b2 b3) →
+      runItem (turnEnv (pre ++ b0 :: b1 :: b2 :: b3 :: rest) pre.length last) Gen.src_stream2bytearray_turn "@item0"
+        = .ok (.int ((pre.length + 4 : Nat) : Int)) ∧
+      runItem (turnEnv (pre ++ b0 :: b1 :: b2 :: b3 :: rest) pre.length last) Gen.src_stream2bytearray_turn "@item1"
+        = .ok (.int (chunkSize (be32 b0 b1 b2 b3) : Nat)) ∧
+      runItem (turnEnv (pre ++ b0 :: b1 :: b2 :: b3 :: rest) pre.length last) Gen.src_stream2bytearray_turn "offset"
+        = .ok (.int ((pre.length + 4 + chunkSize (be32 b0 b1 b2 b3) : Nat) : Int)) ∧
+      runItem (turnEnv (pre ++ b0 :: b1 :: b2 :: b3 :: rest) pre.length last) Gen.src_stream2bytearray_turn "@break"
+        = .ok (.bool last)) :=
+  src_stream2bytearray_turn_eq pre rest b0 b1 b2 b3 last
+
+open MiniPy in
+/-- … and with fewer than four bytes left at `offset` the turn raises `EOFError` (the model's 1..3-byte case) -/
+theorem C10_source_stream2bytearray_turn_short (pre tail : Bytes) (last : Bool) (ht : tail.length < 4) :
+    exec (turnEnv (pre ++ tail) pre.length last) Gen.src_stream2bytearray_turn = .error (.raised "EOFError") :=
+  src_stream2bytearray_turn_short pre tail last ht
+
+open MiniPy in
+example : runItem (turnEnv [9, 9, 5, 0, 0, 2, 7, 8, 1] 2 true) Gen.src_stream2bytearray_turn "offset"
+    = .ok (.int 8) := by rfl
+set_option maxRecDepth 100000 in
+open MiniPy in
+example : exec (turnEnv [5, 0, 0, 2, 7] 0 true) Gen.src_stream2bytearray_turn = .error (.raised "EOFError") := by decide
+
 -- non-vacuity: header 0x05000007 (flags last+little, size 7) through the translated source
 open MiniPy in
 example : runItem [("chunk_header", .int 83886087)] Gen.src_stream2bytearray_fields "chunk_size" = .ok (.int 7) := by decide
